@@ -96,6 +96,14 @@ fn dispatch(engine: &str, opts: &Options, replay_file: Option<&str>) -> i32 {
     match engine {
         "c14-loader" => go(c14::C14 { faults: false }, (3000, 300_000), opts, replay_file),
         "c14-loader-faults" => go(c14::C14 { faults: true }, (3000, 300_000), opts, replay_file),
+        "c14-debug-pcsaft" => {
+            c14::debug_pcsaft(replay_file.expect("--replay"));
+            0
+        }
+        "c12-debug" => {
+            c12::debug_replay(replay_file.expect("--replay"));
+            0
+        }
         "c18-debug" => {
             c18::debug_replay(replay_file.expect("--replay"));
             0
